@@ -270,7 +270,7 @@ def worlds_for(ctx, types, ids, doc, root, limit, nrandom):
 
 
 def gen_cases(ctx):
-    limit, nrandom = (400, 120) if ctx.tier == "quick" else (20000, 3000)
+    limit, nrandom = (300, 80) if ctx.tier == "quick" else (20000, 3000)
     cases, stats = [], {"documents": 0, "exhaustive_documents": 0, "max_sites": 0, "limit": limit}
     for schema, types, ids, docs in ((SCHEMA, TYPES, OBJ_ID, DOCS), (COV_SCHEMA, COV_TYPES, COV_OBJ_ID, COV_DOCS)):
         for entry in docs:
